@@ -6,7 +6,7 @@ from fractions import Fraction
 from typing import Dict, List, Optional, Set, Tuple
 
 from ..absint import eval_test, specialise
-from ..cfg import CFG, symbolic_effects, symbolic_returns
+from ..cfg import CFG, symbolic_effects, symbolic_paths, symbolic_returns
 from ..exprnorm import Poly, Rat, norm_test, normalize, conj_test
 from ..report import Run
 from ..src import (AnalysisError, ClassInfo, FuncInfo, Program, attr_chain, call_name, dotted,
@@ -94,64 +94,88 @@ def interval_tables(prog: Program, run: Run, R: str) -> None:
 
 
 def compare_values(prog: Program, run: Run, R: str) -> None:
+    """compare_odx_values as a decision table: for each kind of operand (number, string, byte
+    field) and each ordering (a < b, a == b, a > b) the consistent symbolic paths must return
+    -1 / 0 / +1, and nothing but pure orderings of the two operands may take part in the decision
+    (no tolerances, no other quantities)."""
     f = prog.func("odxtools.odxtypes:compare_odx_values")
-    cfg = CFG(f.node)
     a, b = f.params()[0], f.params()[1]
     C = "compare_odx_values"
-    # classify returns by the isinstance(a, …) branch they live in
-    kinds = {"(int, float)": "num", "str": "str", "BytesTypes": "bytes"}
-    got: Dict[str, Dict[str, int]] = {"num": {}, "str": {}, "bytes": {}}
-    for r in [x for x in walk_no_nested(f.node) if isinstance(x, ast.Return)]:
-        conds = cfg.branch_conditions(cfg.node_of(r))
-        kind = None
-        rel = None
-        negs = []
-        for t, pol in conds:
-            if isinstance(t, ast.Call) and call_name(t) == "isinstance" and ast.unparse(
-                    t.args[0]) == a and pol:
-                kind = kinds.get(ast.unparse(t.args[1]))
-            elif isinstance(t, ast.Compare) and len(t.ops) == 1:
-                if pol:
-                    rel = t
-                else:
-                    negs.append(t)
-        if kind is None or not isinstance(r.value, (ast.Constant, ast.UnaryOp)):
-            continue
-        val = ast.literal_eval(r.value)
-        if rel is None:
-            got[kind]["else"] = val
-            continue
-        # express relation as sign of (a - b)
-        l, rr = ast.unparse(rel.left), ast.unparse(rel.comparators[0])
-        op = type(rel.ops[0])
-        sign = None
-        alias = {a: "A", b: "B", "tmp_a": "A", "tmp_b": "B"}
-        if l == "tmp" and rr == "0":
-            sign = {ast.Lt: -1, ast.Gt: 1}.get(op)
-        elif alias.get(l) == "A" and alias.get(rr) == "B":
-            sign = {ast.Lt: -1, ast.Gt: 1}.get(op)
-        elif alias.get(l) == "B" and alias.get(rr) == "A":
-            sign = {ast.Lt: 1, ast.Gt: -1}.get(op)
-        if sign is None:
-            raise AnalysisError(f"compare_odx_values: relation not recognised: {ast.unparse(rel)}")
-        got[kind][str(sign)] = val
-    for kind, tab in got.items():
-        ok = tab.get("-1") == -1 and tab.get("1") == 1 and tab.get("else") == 0
-        if ok:
-            run.ok(R, C, f"{kind}: returns sign(a - b)", f.loc)
+    paths = symbolic_paths(f.node)
+    A, B = Rat(Poly.atom("A")), Rat(Poly.atom("B"))
+    kinds = {"num": ("(int, float)", "int", "float", "(float, int)"), "str": ("str",),
+             "bytes": ("BytesTypes", "(bytes, bytearray)", "bytes", "bytearray")}
+
+    def sym(n: ast.AST):
+        # operands, and their zero-padded copies for byte fields, stand for A and B
+        if isinstance(n, ast.Name) and n.id == a:
+            return A
+        if isinstance(n, ast.Name) and n.id == b:
+            return B
+        if isinstance(n, ast.Call) and call_name(n) == "ljust" and isinstance(
+                n.func, ast.Attribute) and isinstance(n.func.value, ast.Name):
+            return A if n.func.value.id == a else (B if n.func.value.id == b else None)
+        return None
+    for kind, tnames in kinds.items():
+        foreign: List[str] = []
+        table: Dict[int, Set[object]] = {}
+        for sgn in (-1, 0, 1):
+            def leaf(t: ast.AST, sgn=sgn, kind=kind, tnames=tnames):
+                if isinstance(t, ast.Call) and call_name(t) == "isinstance" and len(t.args) == 2:
+                    who = ast.unparse(t.args[0])
+                    if who == a:
+                        return ast.unparse(t.args[1]) in tnames
+                    if who == b:
+                        return True  # operands of the same kind
+                if isinstance(t, ast.Compare) and len(t.ops) == 1 and isinstance(
+                        t.ops[0], (ast.Lt, ast.LtE, ast.Gt, ast.GtE, ast.Eq, ast.NotEq)):
+                    names = {n.id for n in ast.walk(t) if isinstance(n, ast.Name)}
+                    if not names & {a, b}:
+                        return None
+                    try:
+                        d = normalize(t.left, sym) - normalize(t.comparators[0], sym)
+                    except Exception:  # noqa: BLE001
+                        d = None
+                    s_ = None
+                    if d is not None and d.same(A - B):
+                        s_ = sgn
+                    elif d is not None and d.same(B - A):
+                        s_ = -sgn
+                    if s_ is None:
+                        foreign.append(ast.unparse(t))
+                        return None
+                    op = type(t.ops[0])
+                    return {ast.Lt: s_ < 0, ast.LtE: s_ <= 0, ast.Gt: s_ > 0, ast.GtE: s_ >= 0,
+                            ast.Eq: s_ == 0, ast.NotEq: s_ != 0}[op]
+                return None
+            outs: Set[object] = set()
+            for p_ in paths:
+                if all(eval_test(t, {}, leaf) in (None, pol) for t, pol in p_.conds):
+                    if any(isinstance(st, ast.Expr) and isinstance(st.value, ast.Call) and
+                           call_name(st.value) == "odxraise" for st in p_.trace):
+                        outs.add("error")
+                    elif p_.retval is not None:
+                        try:
+                            outs.add(ast.literal_eval(p_.retval))
+                        except Exception:  # noqa: BLE001
+                            outs.add(ast.unparse(p_.retval))
+                    else:
+                        outs.add(None)
+            table[sgn] = outs
+        if foreign:
+            run.violation(R, C, f"{kind}-foreign-test",
+                          f"for {kind} operands the result depends on `{foreign[0]}`, which is "
+                          "not an ordering of the two operands (ODX compares exactly: a "
+                          "tolerance makes CLOSED limits admit values beyond the limit and OPEN "
+                          "limits exclude values inside it)", f.loc, foreign[0])
+        elif table == {-1: {-1}, 0: {0}, 1: {1}}:
+            run.ok(R, C, f"{kind}: returns sign(a - b) (3 orderings)", f.loc)
         else:
             run.violation(R, C, f"{kind}-sign",
                           f"for {kind} operands the result is not -1/0/+1 = sign(a - b) "
-                          f"(a<b -> {tab.get('-1')}, a>b -> {tab.get('1')}, "
-                          f"equal -> {tab.get('else')})", f.loc)
-    # tmp = a - b
-    tmps = [x for x in walk_no_nested(f.node) if isinstance(x, ast.Assign) and ast.unparse(
-        x.targets[0]) == "tmp"]
-    if tmps and normalize(tmps[0].value).same(normalize(ast.parse(f"{a} - {b}",
-                                                                  mode="eval").body)):
-        run.ok(R, C, "numeric difference is a - b", _loc(f, tmps[0]))
-    elif tmps:
-        run.violation(R, C, "difference", f"`{stmt_key(tmps[0])}` is not a - b", _loc(f, tmps[0]))
+                          f"(a<b -> {sorted(map(str, table[-1]))}, a>b -> "
+                          f"{sorted(map(str, table[1]))}, equal -> {sorted(map(str, table[0]))})",
+                          f.loc)
     # byte fields are padded with zeros on the right up to the longer one
     pads = [x for x in walk_no_nested(f.node) if isinstance(x, ast.Call) and call_name(x) in (
         "ljust", "rjust")]
